@@ -39,7 +39,7 @@ ASSUMPTIONS = ["the base state sampler yields states within the space bounds (it
                "costs are non-NaN doubles compared by the minimising order", "numIters_ <= 10^9 and fewer than 10^9 earlier draws (32-bit counters do not wrap)"]
 TRUSTED = ["extraction rewrite table of units/C15.py", "stub contracts in units/C15/informed_unb.c and stubs in units/C15/informed.c", "CBMC 6.11 (goto-instrument DFCC) + minisat"]
 NOT_COVERED = ["the prolate-hyperspheroid transform (unit sphere surface -> summed focal distance = c), the analytic measure, uniformity of the samples, 'no improving state is excluded' (Eigen linear algebra, transcendental formulas, a distributional claim)",
-               "numberOfPhsInclusions / isInAnyPhs membership tests, getPhsMeasure, ProlateHyperspheroid.cpp, GeometricEquations.cpp"]
+               "isInPhs (the membership test of one hyperspheroid), getPhsMeasure, randomPhsPtr (measure-proportional choice), ProlateHyperspheroid.cpp, GeometricEquations.cpp"]
 NATIVE = []
 
 # ---- the same loops, UNBOUNDED in numIters_ (DFCC: loop contracts, stubs and callees replaced by their contracts) ----
@@ -143,7 +143,11 @@ M_RULES = [
     (r"InformedSampler::space_->getMeasure\(\)", "WHOLE_SPACE_MEASURE()", 0), (r"\binformedSubSpace_->getMeasure\(\)", "INFORMED_SUBSPACE_MEASURE()", 0), (r"\buninformedSubSpace_->getMeasure\(\)", "UNINFORMED_MEASURE()", 0),
     (r"std::min\(", "FMIN(", 0),
 ]
+M_RULES += [(r"for \(auto phsIter = listPhsPtrs_\.begin\(\); phsIter != listPhsPtrs_\.end\(\) && !inPhs; \+\+phsIter\)", "for (unsigned phs = 0; phs != N_PHS && !inPhs; ++phs)", 0),
+            (r"isInPhs\(\*phsIter, informedVector\)", "IN_PHS(phs)", 0), (r"phsPtr->isInPhs\(&informedVector\[0\]\)", "IN_PHS(phs)", 0)]
 M_SRC = [
+    dict(name="pl_isInAnyPhs", file=PL, sig=r"bool PathLengthDirectInfSampler::isInAnyPhs\(const std::vector<double> &informedVector\) const", rules=M_RULES, loops={"allow_uncontracted": True}),
+    dict(name="pl_numberOfPhsInclusions", file=PL, sig=r"unsigned int PathLengthDirectInfSampler::numberOfPhsInclusions\(const std::vector<double> &informedVector\) const", rules=M_RULES, loops={"allow_uncontracted": True}),
     dict(name="pl_keepSample", file=PL, sig=r"bool PathLengthDirectInfSampler::keepSample\(const std::vector<double> &informedVector\)", rules=M_RULES, loops={}),
     dict(name="pl_getInformedMeasure", file=PL, sig=r"double PathLengthDirectInfSampler::getInformedMeasure\(const Cost &currentCost\) const", rules=M_RULES, loops={"allow_uncontracted": True}),
 ]
@@ -151,3 +155,6 @@ UNITS.append(dict(name="c15_keepSample", template="C15/phs_misc.c", mode="plain"
                   functions=["ompl::base::PathLengthDirectInfSampler::keepSample"], canaries=[dict(name="one_over_all", where="body:pl_keepSample", rx=r"RECIP\(numIn\)", repl="RECIP(N_PHS)")]))
 UNITS.append(dict(name="c15_getInformedMeasure", template="C15/phs_misc.c", mode="plain", entry="h_measure", sources=M_SRC, needs=["pl_getInformedMeasure"], flags=FLAGS, unwind=18, backend="minisat", timeout=300, level="bounded", bound="<= 4 hyperspheroids",
                   functions=["ompl::base::PathLengthDirectInfSampler::getInformedMeasure(cost)"], canaries=[dict(name="cap_by_informed_subspace", where="body:pl_getInformedMeasure", rx=r"WHOLE_SPACE_MEASURE\(\)", repl="INFORMED_SUBSPACE_MEASURE()")]))
+UNITS.append(dict(name="c15_phs_membership", template="C15/phs_misc.c", mode="plain", entry="h_membership", sources=M_SRC, needs=["pl_isInAnyPhs", "pl_numberOfPhsInclusions"], flags=FLAGS, unwind=18, backend="minisat", timeout=300, level="bounded", bound="<= 4 hyperspheroids",
+                  functions=["ompl::base::PathLengthDirectInfSampler::isInAnyPhs", "ompl::base::PathLengthDirectInfSampler::numberOfPhsInclusions"],
+                  canaries=[dict(name="only_last_membership_counts", where="body:pl_isInAnyPhs", rx=r"&& !inPhs;", repl=";"), dict(name="count_resets", where="body:pl_numberOfPhsInclusions", rx=r"\+\+numInclusions;", repl="numInclusions = 1u;")]))
